@@ -58,7 +58,22 @@ class FsSim:
         self.dir = scratch_dir()
         self.path = os.path.join(self.dir, 'f.pysdc')
         self.model = Model()
-        self.h = None  # live handler
+        self.hs = {}  # live handlers by id (several may be open on the one file)
+        self.cur = 0
+
+    @property
+    def h(self):
+        return self.hs.get(self.cur)
+
+    @h.setter
+    def h(self, val):
+        if val is None:
+            self.hs = {}  # the process died: every handler is gone
+        else:
+            self.hs[self.cur] = val
+
+    def use(self, hid):
+        self.cur = hid
 
     def close(self):
         self.m.FieldsIO.ALLOW_OVERWRITE = False
@@ -129,6 +144,7 @@ class FsSim:
                 if before is not None:
                     self.res.probe('overwrite_allowed')
                 M.header, M.records, M.exists, M.dead_tail, M.appended_after_torn = hd, [], True, 0, False
+                self.hs = {}  # handlers opened on the file that was just replaced are stale
                 self.h = h
         self.log.add('fs', 'create', hd['kind'], hd['dtype'], bool(allow), self._size())
 
@@ -143,7 +159,9 @@ class FsSim:
         if M.dead_tail:
             M.appended_after_torn = True
             self.res.probe('append_after_torn_tail')
-        self.log.add('fs', 'append', tbits(t), len(raw), self._size())
+        if self.cur != 0:
+            self.res.probe('append_through_second_handle')
+        self.log.add('fs', 'append', self.cur, tbits(t), len(raw), self._size())
 
     def _in_dying_process(self, limit, fn):
         """Run fn() in a forked child whose file-size limit is `limit` bytes: the kernel performs the write up to
@@ -387,16 +405,22 @@ def execute_ops(sc):
         for op in sc['ops']:
             name, args = op[0], op[1:]
             if name == 'create':
+                sim.use(args[2] if len(args) > 2 else 0)
                 sim.op_create(sc['header'] if not args or args[0] is None else args[0], allow=bool(args[1]) if len(args) > 1 else False)
             elif name == 'append':
+                sim.use(args[2] if len(args) > 2 else 0)
                 sim.op_append(args[0], args[1])
             elif name == 'crash_append':
+                sim.use(args[4] if len(args) > 4 else 0)
                 sim.op_crash_append(args[0], args[1], args[2], args[3] if len(args) > 3 else 'size')
             elif name == 'crash_create':
+                sim.use(0)
                 sim.op_crash_create(sc['header'], args[0])
             elif name == 'reopen':
+                sim.use(args[1] if len(args) > 1 else 0)
                 sim.op_reopen(args[0] if args else 'generic')
             elif name == 'read':
+                sim.use(args[1] if len(args) > 1 else 0)
                 sim.op_read(args[0] if args else 'live')
             elif name == 'fresh_read':
                 sim.op_fresh_read()
